@@ -12,6 +12,7 @@ NOTE = ("Lean 4.33 kernel; axioms propext/Classical.choice/Quot.sound only (audi
 CHECKS = {
     "C07": dict(
         text="All clauses of C07 are Lean theorems over the reals about Model.Kin (gamma>=1, speed in (0,1), shower energy, decay length formula/sign/antitone/exponential law, decay altitude = altitude of the explicit point, >=0, monotone in length and angle). The model is tied to taus.py/eas.py by running the real Taus.__call__ and EAS.altDec next to the Float instance of the same model, with the physical constants pinned in the model. That every tau energy reachable from the shipped tables is above the tau mass (so the speed is real) is proved in Props/C18 (shipped_min_tau_energy_v*, reachable_tau_above_mass) and re-checked whenever the tables change.",
+        tie="EAS.altDec and Taus.__call__ (its two table look-ups left as inputs) are regenerated from eas.py / taus.py into lean/NssVerif/Gen/Src/C07.lean on every run; C07.src_altDec and C07.src_tausCall prove by rfl, for every Scalar instance (the reals of the theorems and the Float of the driver), that the translated functions are the model's altDec and (tauBeta, tauLorentz, showerEnergy); at Float the translated source is bit-identical to the real Taus.__call__ on every case and within 2 ulp (libm log/sin) of EAS.altDec.",
         ref="4 C07", technique="Lean 4 theorems over R (Mathlib) on a hand-written model + Float-instance differential correspondence against the real code"),
 }
 
@@ -57,9 +58,11 @@ def main():
             "evidence_file": f"evidence/{pid}.json",
             "replay_cmd_template": f"./check {pid} --replay {{path}}",
             "engine": "lean-model",
-            "level_claimed": {"category": "proof", "text": c["text"], "design_ref": "DESIGN.md section " + c["ref"]},
+            "level_claimed": {"category": "proof", "text": c["text"] + ((" SOURCE TIE: " + c["tie"]) if c.get("tie") else ""),
+                              "design_ref": "DESIGN.md section " + c["ref"] + (" and section 8.7 (source tie)" if c.get("tie") else "")},
             "level_note": c.get("note", NOTE),
-            "technique": c["technique"],
+            "technique": c["technique"] + (" + Lean definitions regenerated from the Python source on every run by a translator (harness/pytrans.py) "
+                                           "and proved equal to the model (bridging theorems src_*), run at Float next to the real functions" if c.get("tie") else ""),
         })
     na = [{"property_id": p, "reason": NOT_APPLICABLE.get(p, "check not built yet in this session (work in progress; see DESIGN.md section 7 for the build order)")}
           for p in ALL if p not in CHECKS]
